@@ -97,4 +97,65 @@ theorem verify_total (H : Bytes → Bytes) (root k v pb : Bytes) :
     (∃ b : Bool, verifyKVPairProof H root k v pb = b) := by
   refine ⟨fun h => by simp [verifyKVPairProof, h], ⟨_, rfl⟩⟩
 
+/-! ### membership soundness is false of the code (finding, replayed by `h_c03`) -/
+
+/-- **membership_forgery** (refutes the stronger `verify_membership` the design hoped for: "an accepted proof
+implies the pair is in the state, or a collision") — for *every* hash function with 32-byte outputs and every pair
+`(k', v')`: take the one-leaf state `{A ↦ B}` with `A = H(leafEnc k' v')` (a 32-byte key) and any `B` of at most
+32 bytes; its root is `H(leafEnc A B)`.  The "proof" made of the single inner node
+`{LeftHash: nil, RightHash: B, Height: 0, Size: 1}` makes `VerifyKVPairProof` accept `(k', v')` against that root
+although `k'` is not a key of the state.  No property of `H` is used: the leaf `(A, B)` is re-read as an inner node
+(`LeafNode` and `InnerNode` have the same wire shape and `Proof.Verify` does not require height ≥ 1 / size ≥ 2).
+In a larger state the forged node is simply put in front of the honest proof of `A`. -/
+theorem membership_forgery (H : Bytes → Bytes) (hlen : ∀ x, (H x).length = 32) (k' v' b : Bytes)
+    (hb2 : b.length ≤ 32) (hne : k' ≠ H (leafEnc k' v')) :
+    let a := H (leafEnc k' v')
+    let root := H (leafEnc a b)
+    let t : Node := .leaf a b ⟨some root, true⟩
+    Hashed H t ∧ (t.get k').2 = none ∧
+      verifyKVPairProof H root k' v' (encProof [⟨[], b, 0, 1⟩]) = true := by
+  intro a root t
+  have hnorm : ∀ n ∈ [(⟨[], b, 0, 1⟩ : InnerNode)], Norm n := by
+    intro n hn
+    simp at hn; subst hn
+    exact norm_of_bounds [] b 0 1 (by decide) (by decide) (by simp) (by omega)
+  refine ⟨⟨root, rfl, last32_of_length (hlen _)⟩, ?_, ?_⟩
+  · simp only [t, Node.get]
+    cases hc : cmpB a k' with
+    | eq => exact absurd (cmpB_eq_iff.mp hc).symm hne
+    | lt => rfl
+    | gt => rfl
+  · simp only [verifyKVPairProof, decodeProof_encProof _ hnorm, Proof.verify, bne_self_eq_false,
+      Bool.false_eq_true, if_false, last32_of_length (hlen (leafEnc k' v')), List.foldl_cons, List.foldl_nil,
+      innerNodeProofHash, List.isEmpty_nil, if_true]
+    rw [innerEnc_eq_leafEnc _ b (by rw [hlen]; omega) hb2]
+    simp [root, a]
+
+/-- the same forgery through an attacker-chosen *value*: a leaf `(K, A)` with a key `K` of 1..32 bytes whose value
+is the 32-byte `A = H(leafEnc k' v')`; forged node `{LeftHash: K, RightHash: nil, Height: 0, Size: 1}`. -/
+theorem membership_forgery_value (H : Bytes → Bytes) (hlen : ∀ x, (H x).length = 32) (k' v' sk : Bytes)
+    (hs1 : sk ≠ []) (hs2 : sk.length ≤ 32) (hne : k' ≠ sk) :
+    let a := H (leafEnc k' v')
+    let root := H (leafEnc sk a)
+    let t : Node := .leaf sk a ⟨some root, true⟩
+    Hashed H t ∧ (t.get k').2 = none ∧
+      verifyKVPairProof H root k' v' (encProof [⟨sk, [], 0, 1⟩]) = true := by
+  intro a root t
+  have hnorm : ∀ n ∈ [(⟨sk, [], 0, 1⟩ : InnerNode)], Norm n := by
+    intro n hn
+    simp at hn; subst hn
+    exact norm_of_bounds sk [] 0 1 (by decide) (by decide) (by omega) (by simp)
+  refine ⟨⟨root, rfl, last32_of_length (hlen _)⟩, ?_, ?_⟩
+  · simp only [t, Node.get]
+    cases hc : cmpB sk k' with
+    | eq => exact absurd (cmpB_eq_iff.mp hc).symm hne
+    | lt => rfl
+    | gt => rfl
+  · have hse : sk.isEmpty = false := by cases sk <;> simp_all
+    simp only [verifyKVPairProof, decodeProof_encProof _ hnorm, Proof.verify, bne_self_eq_false,
+      Bool.false_eq_true, if_false, last32_of_length (hlen (leafEnc k' v')), List.foldl_cons, List.foldl_nil,
+      innerNodeProofHash, hse]
+    rw [innerEnc_eq_leafEnc sk _ hs2 (by rw [hlen]; omega)]
+    simp [root, a]
+
 end C03
